@@ -83,6 +83,19 @@ namespace DFS
 	  else
 	    return buf;
 	}
+      // Don't allocate more than the file can supply: len may come
+      // from a size field in the (untrusted) image file.
+      f_.seekg(0, f_.end);
+      const std::streamoff file_size = f_.tellg();
+      f_.seekg(pos, f_.beg);
+      if (file_size >= 0)
+	{
+	  const unsigned long size = static_cast<unsigned long>(file_size);
+	  if (pos >= size)
+	    return buf;		// reading from beyond EOF returns zero bytes
+	  if (len > size - pos)
+	    len = size - pos;
+	}
       buf.resize(len);
       f_.read(reinterpret_cast<char*>(buf.data()), len);
       buf.resize(f_.gcount());
